@@ -52,11 +52,15 @@ def brief(sc, oi):
     return {"classes": sc["classes"], "enums": sc.get("enums"), "ops_up_to_call": sc["ops"][:oi + 1]}
 
 
-def run_generic(ctx, prop, bits, what, n_quick, n_thorough, softs=False, small=True, tree=False, hist=False, tag=None, ninst=1, soft_bias=False):
+def run_generic(ctx, prop, bits, what, n_quick, n_thorough, softs=False, small=True, tree=False, hist=False, tag=None, ninst=1, soft_bias=False,
+                free=False, rls=False, hooks=False, extra=None):
     """bits: mask of s_check bits that are violations of this property; bit 1 (terms) is always the tie (A)"""
-    rnd = random.Random("%s-%d" % (prop, ctx.seed))
+    rnd = random.Random("%s-%s-%d" % (prop, tag or "", ctx.seed)) if tag else random.Random("%s-%d" % (prop, ctx.seed))
     n = n_quick if ctx.quick() else n_thorough
-    gen = lambda r: solvegen.Gen(r, small=small, tree=tree, hist=hist, ninst=ninst, soft_bias=soft_bias).scenario(ncalls=3, softs=softs)
+    def gen(r):
+        g = solvegen.Gen(r, small=small, tree=tree, hist=hist, ninst=ninst, soft_bias=soft_bias, free=free, rls=rls)
+        g.hooks = hooks
+        return g.scenario(ncalls=3, softs=softs)
     scenarios = [gen(rnd) for _ in range(n)]
     stats = {"evaluations": 0, "outcomes": {}, "nowt": 0}
 
@@ -68,6 +72,9 @@ def run_generic(ctx, prop, bits, what, n_quick, n_thorough, softs=False, small=T
         for si, oi, code, res in results:
             stats["evaluations"] += 1
             stats["outcomes"][res["outcome"]] = stats["outcomes"].get(res["outcome"], 0) + 1
+            if extra is not None:
+                for msg in extra(scs[si], oi, res):
+                    core.add_violation(ctx, msg, {"scenario": brief(scs[si], oi), "observed": {k: res[k] for k in ("outcome", "before", "values", "hooks")}})
             if code is None:
                 ctx.tie_broken.append("Coq evaluation failed for scenario %d call %d" % (si, oi))
                 continue
